@@ -156,15 +156,15 @@ inline auto describe(OpsCase const& k) -> std::string
 }
 
 // E2: after a fixed fill prefix, every ordered pair (thorough: triple) of ops over a two-shapes-per-op alphabet
-inline void run_pairs(vf::Ctx& c, std::vector<RawOp> const& prefix)
+// (`shapes`: the argument triples (a,b,c) every op code is enumerated with; default = target A / target B of a two-owner case)
+inline void run_pairs(vf::Ctx& c, std::vector<RawOp> const& prefix, std::vector<RawOp> const& shapes = {RawOp{0, 0, 1, 2}, RawOp{0, 1, 2, 5}})
 {
     for (std::uint32_t ci = 0; ci < configs().size(); ++ci) {
         auto const& cfg = configs()[ci];
         if (!cfg.tiny) { continue; }
         std::vector<RawOp> alpha;
         for (std::uint32_t code = 0; code < cfg.ncodes; ++code) {
-            alpha.push_back(RawOp{code, 0, 1, 2});
-            alpha.push_back(RawOp{code, 1, 2, 5});
+            for (auto const& sh : shapes) { alpha.push_back(RawOp{code, sh.a, sh.b, sh.c}); }
         }
         vf::enum_histories(ci, alpha, c.thorough() ? 3 : 2, [&](OpsCase const& tail) {
             OpsCase k;
